@@ -149,6 +149,8 @@ def to_trace(runs):
     for r in runs:
         m = {}
         for e in r["events"]:
+            if e["ev"].split(".")[0] not in ("q", "h", "x", "t"):
+                continue      # observation points of other subsystems (flush / rotation / segment listing)
             kv = dict(e["kv"])
             if "qid" in kv:
                 kv["qid"] = m.setdefault(kv["qid"], off + len(m) + 1)
